@@ -255,7 +255,22 @@ def _state_I(res, zs, ks, count=True):
     if not isinstance(got, str):
         got = _mag_molal(got)
     ok &= _judge(res, "ionic_strength", "dict-of-quantities", got, wn, ref, net, dict(case, keys=keys))
-    res.symbols["form:dict-variants"] += 5
+    # the caller's own objects made from the same formulas are the caller's to edit: a later reading of the charges from the
+    # formulas must not see those edits
+    try:
+        from chempy.util.parsing import formula_to_composition
+
+        for k in keys:
+            own = Substance.from_formula(k)
+            own.composition[0] = own.composition.get(0, 0) + 1
+            own.composition[999] = 1
+            raw = formula_to_composition(k)
+            raw[0] = raw.get(0, 0) + 2
+    except Exception:
+        pass
+    got, wn = _call_is(res, lambda: ionic_strength(dict(zip(keys, bs))))
+    ok &= _judge(res, "ionic_strength", "dict-after-caller-edited-own-objects", got, wn, ref, net, dict(case, keys=keys))
+    res.symbols["form:dict-variants"] += 6
     if count:
         res.outcomes[("neutral" if net == 0 else "charged") + ("-ok" if ok else "-VIOLATED") + "-n%d" % r] += 1
         if ref > res.extra.get("max_ionic_strength", 0):
